@@ -272,8 +272,31 @@ def _abuse_sources(case, sources):
             src.next(2)
 
 
-def run_impl(case):
-    """Returns per op a JSON-able record of everything observable."""
+class NoAnswer(Exception):
+    """the implementation did not answer within the time limit (e.g. a loop that no longer terminates)"""
+
+
+def run_impl(case, limit=30):
+    """Returns per op a JSON-able record of everything observable.  A history that does not finish within
+    `limit` seconds escapes as NoAnswer (the driver treats an escaping exception as behaviour the model does
+    not have) instead of hanging the check."""
+    import signal
+    import threading
+    if threading.current_thread() is not threading.main_thread():
+        return _run_impl(case)
+
+    def on_alarm(signum, frame):
+        raise NoAnswer(f'no result within {limit} s')
+    old = signal.signal(signal.SIGALRM, on_alarm)
+    signal.setitimer(signal.ITIMER_REAL, limit)
+    try:
+        return _run_impl(case)
+    finally:
+        signal.setitimer(signal.ITIMER_REAL, 0)
+        signal.signal(signal.SIGALRM, old)
+
+
+def _run_impl(case):
     fs = case['fs']
     T0 = case.get('t0', 0) / fs
     if case['pol'] == 'random':
@@ -328,9 +351,10 @@ def run_impl(case):
                     or inf['duration'] != declared_dur(case['stims'][i]) / fs:
                 bad = f'get_info({i}) = trials {inf["trials"]} requested {inf["requested_trials"]} duration {inf["duration"]}'
             if abuse:                      # the returned dict is the caller's
-                inf['trials'] = -100
-                inf['requested_trials'] = -100
-                inf['duration'] = 1e9
+                inf['trials'] += 7
+                inf['requested_trials'] += 7
+                inf['duration'] = inf['duration'] * 2 + 1
+                inf['metadata'] = 'scribbled'
         return {'samples': s, 'ts_exact': bool(ts == s / fs), 'empty': bool(q.is_empty()),
                 'count': int(q.count_trials()), 'requested': int(q.count_requested_trials()),
                 'remaining': [int(x) for x in rem], 'factories': int(q.count_factories()), 'info': bad}
